@@ -9,7 +9,7 @@ import { A, show, parse, Rng, quote } from "./sx.mjs";
 const here = path.dirname(fileURLToPath(import.meta.url));
 const build = process.env.BEFF_JS_BUILD || path.join(here, "../../.build/js");
 const [mode, cmd, ...rest] = process.argv.slice(2);
-const modFile = { sha: "./mode_sha.mjs", rt: "./mode_rt.mjs", ctx: "./mode_ctx.mjs" }[mode.split("-")[0]];
+const modFile = { sha: "./mode_sha.mjs", rt: "./mode_rt.mjs", ctx: "./mode_ctx.mjs", prog: "./mode_prog.mjs", schema: "./mode_schema.mjs" }[mode.split("-")[0]];
 const M = await import(modFile);
 
 async function loadRuntime() {
@@ -30,12 +30,14 @@ if (cmd === "gen") {
   fs.writeSync(1, out.join("\n") + "\n");
 } else if (cmd === "run") {
   const rt = await loadRuntime();
-  const run = M.makeRunner(rt, mode);
+  const run = M.makeRunner(rt, mode, build);
   const lines = fs.readFileSync(0, "utf8").split("\n").filter((l) => l.trim() && !l.startsWith(";"));
   const out = [];
   for (const line of lines) {
     try {
-      const [reply, oracle] = run(parse(line));
+      // two-stage modes: "<request>\t<result of the previous stage>"
+      const parts = line.split("\t");
+      const [reply, oracle] = M.asyncRunner ? await run(parse(parts[0]), parts[1] ? parse(parts[1]) : null) : run(parse(parts[0]));
       out.push(show(reply) + "\t" + show(oracle));
     } catch (e) {
       out.push(`(host-throw ${quote(String(e && e.message))})\t(oracle fail host-throw)`);
